@@ -216,7 +216,7 @@ theorem C04_quote_phase_same (cfg : Cfg) (pre post : List BTok) (hty : cfg.types
 theorem C04_item_wraps_eq (cfg : Cfg) (pre post : List BTok) (hty : cfg.types = pre ++ .list :: post)
     (hnl : .list ∉ pre) (hnp : .paragraph ∉ pre) (hnt : .table ∉ pre)
     (m : Str) (hm : ListLeader m) (pad : Nat) (h1 : 1 ≤ pad) (h4 : pad ≤ 4)
-    (l0' l0 : Line) (rest' rest : List Line) (hf : FirstAs m pad l0' l0) (htb : thematicBreak l0'.s = false)
+    (l0' l0 : Line) (rest' rest : List Line) (hf : FirstAs m pad l0' l0) (htb : Scan.thematicBreak l0'.s = false)
     (hrest : IndentedAll (m.length + pad) rest' rest) (hlast : trailNl 0 rest = 0) (start : Nat) (st : St) (g : Nat) :
     tokenizeBlock cfg (g + (pre.length + 4)) (l0' :: rest') start st =
       wrapItem (m.length + pad) m start l0.origin (tokenizeBlock cfg g (l0 :: rest) start st) :=
@@ -239,7 +239,7 @@ theorem C04_item_wraps_partial (cfg : Cfg) (pre post : List BTok) (hty : cfg.typ
     (l0 : Line) (ls : List Line) (c0 : Char) (r0 : Str) (hs : l0.s = c0 :: r0) (hc0 : pyIsSpace c0 = false)
     (hcont : ∀ l ∈ ls, l.s = ['\n'] ∨ ContLine l.s)
     (hlast : ∀ l, ls.getLast? = some l → l.s ≠ ['\n'])
-    (htb : thematicBreak (m ++ List.replicate pad ' ' ++ l0.s) = false)
+    (htb : Scan.thematicBreak (m ++ List.replicate pad ' ' ++ l0.s) = false)
     (start : Nat) (st st' : St) (gas : Nat) (b : Buf)
     (hb : tokenizeBlock cfg gas (l0 :: ls) start st = .ok (b, st')) :
     tokenizeBlock cfg (gas + (pre.length + 4)) (markLine m pad l0 :: ls.map (indentLine (m.length + pad))) start st =
@@ -277,7 +277,7 @@ theorem C04_item_phase_partial (cfg : Cfg) (pre post : List BTok) (hty : cfg.typ
     (hnl : .list ∉ pre) (hnp : .paragraph ∉ pre) (hnt : .table ∉ pre)
     (m : Str) (hm : ListLeader m) (pad : Nat) (h1 : 1 ≤ pad) (h4 : pad ≤ 4)
     (s0 : Str) (ss : List Str) (hok : itemDocOk (s0 :: ss) = true)
-    (htb : thematicBreak (m ++ List.replicate pad ' ' ++ s0) = false)
+    (htb : Scan.thematicBreak (m ++ List.replicate pad ' ' ++ s0) = false)
     (gas : Nat) (B : Buf) (st' : St) (hB : blockPhase cfg gas (s0 :: ss) = .ok (B, st')) :
     blockPhase cfg (gas + (pre.length + 4)) (indentDoc m pad (s0 :: ss)) =
       .ok ({ entries := [.list [.mk B.entries (decide (B.entries.length > 1) && B.loose) 0 (m.length + pad) m 1 1] 1 1],
@@ -308,7 +308,7 @@ theorem C04_item_phase_partial (cfg : Cfg) (pre post : List BTok) (hty : cfg.typ
     `ThematicBreak` are consulted before `List` -/
 theorem C04_item_phase_default_partial (ti : Bool) (m : Str) (hm : ListLeader m) (pad : Nat) (h1 : 1 ≤ pad) (h4 : pad ≤ 4)
     (s0 : Str) (ss : List Str) (hok : itemDocOk (s0 :: ss) = true)
-    (htb : thematicBreak (m ++ List.replicate pad ' ' ++ s0) = false)
+    (htb : Scan.thematicBreak (m ++ List.replicate pad ' ' ++ s0) = false)
     (gas : Nat) (B : Buf) (st' : St) (hB : blockPhase { types := defaultTypes, tableInterrupt := ti } gas (s0 :: ss) = .ok (B, st')) :
     blockPhase { types := defaultTypes, tableInterrupt := ti } (gas + 10) (indentDoc m pad (s0 :: ss)) =
       .ok ({ entries := [.list [.mk B.entries (decide (B.entries.length > 1) && B.loose) 0 (m.length + pad) m 1 1] 1 1],
@@ -319,7 +319,7 @@ theorem C04_item_phase_default_partial (ti : Bool) (m : Str) (hm : ListLeader m)
 /-- the Markdown renderer's token types, either `tableInterrupt` -/
 theorem C04_item_phase_markdown_partial (ti : Bool) (m : Str) (hm : ListLeader m) (pad : Nat) (h1 : 1 ≤ pad) (h4 : pad ≤ 4)
     (s0 : Str) (ss : List Str) (hok : itemDocOk (s0 :: ss) = true)
-    (htb : thematicBreak (m ++ List.replicate pad ' ' ++ s0) = false)
+    (htb : Scan.thematicBreak (m ++ List.replicate pad ' ' ++ s0) = false)
     (gas : Nat) (B : Buf) (st' : St) (hB : blockPhase { types := markdownTypes, tableInterrupt := ti } gas (s0 :: ss) = .ok (B, st')) :
     blockPhase { types := markdownTypes, tableInterrupt := ti } (gas + 12) (indentDoc m pad (s0 :: ss)) =
       .ok ({ entries := [.list [.mk B.entries (decide (B.entries.length > 1) && B.loose) 0 (m.length + pad) m 1 1] 1 1],
